@@ -44,9 +44,35 @@ func moduleStmt(g *yg.G) *yg.Stmt {
 	leaf := func(name string) *yg.Stmt {
 		return mk("leaf", name, mk("type", "string"), mk("description", "a leaf\n   with text"))
 	}
+	// typed arguments (checked while parsing) drawn from a pool of near misses and oddities
+	odd := func() string { return oddArgs[g.Pick(len(oddArgs), "oddarg")] }
+	typed := func(i int) *yg.Stmt {
+		switch g.Pick(8, "typedkind") {
+		case 0:
+			return mk("leaf", fmt.Sprintf("t%d", i), mk("type", "int32", mk("range", odd())))
+		case 1:
+			return mk("leaf", fmt.Sprintf("t%d", i), mk("type", "string", mk("length", odd()), mk("pattern", odd())))
+		case 2:
+			return mk("leaf", fmt.Sprintf("t%d", i), mk("type", "enumeration", mk("enum", "e", mk("value", odd()))))
+		case 3:
+			return mk("leaf", fmt.Sprintf("t%d", i), mk("type", "decimal64", mk("fraction-digits", odd()), mk("range", odd())))
+		case 4:
+			return mk("leaf", fmt.Sprintf("t%d", i), mk("type", "bits", mk("bit", "b", mk("position", odd()))), mk("config", odd()), mk("mandatory", odd()), mk("status", odd()))
+		case 5:
+			return mk("list", fmt.Sprintf("t%d", i), mk("key", odd()), mk("unique", odd()), mk("min-elements", odd()), mk("max-elements", odd()), mk("ordered-by", odd()), leaf("k"))
+		case 6:
+			return mk("deviation", odd(), mk("deviate", odd()))
+		default:
+			return mk([]string{"revision", "augment", "if-feature", "yang-version", "include", "import", "identity", "feature", "typedef", "grouping", "uses", "anyxml", "choice", "rpc"}[g.Pick(14, "oddkw")], odd())
+		}
+	}
 	body := []*yg.Stmt{mk("namespace", "urn:m"), mk("prefix", "m")}
 	n := g.Pick(4, "nbody")
 	for i := 0; i < n; i++ {
+		if g.Pick(3, "typedstmt") == 1 {
+			body = append(body, typed(i))
+			continue
+		}
 		switch g.Pick(4, "bodykind") {
 		case 0:
 			body = append(body, leaf(fmt.Sprintf("l%d", i)))
@@ -60,6 +86,9 @@ func moduleStmt(g *yg.G) *yg.Stmt {
 	}
 	return mk("module", "m", body...)
 }
+
+var oddArgs = []string{"-", "+", " ", "..", "1..", "..1", "|", "1|", "|1", "a..b", "-.5..1", "1..2 | -", "--1", "-0", "00", "0x", "1e1", "9999999999999999999999", "min", "max", "min..max", "max..min",
+	"true", "false", "True", "current", "a b", "a/b", "/a:b", "/", "a:", ":a", "1a", "é", "\u00a0", "a\u00a0b", "2020-01-01", "2020-1-1", "2020-13-45", "unbounded", "*", "[", "(", "\\", "1", "0", "18", "19", "user", "system", "not-supported", "add", "replace", "delete", "k", "k k", "-", "- 1", "1 -", "+1", "1..-", "-..5", ".", "1.", ".1", "1.2.3"}
 
 var hostile = []string{"\x00", "\xff", "\r", "\f", "\"", "'", "{", "}", ";", "+", "/*", "*/", "//", "\\", "\n", " ", "é", "\xc3", "a"}
 
